@@ -33,9 +33,13 @@ Environment (all optional):
                      "reports": {instance: [state|null...]},  # successive check_jobs answers, last repeats
                      "submit_by_prefix" / "reports_by_prefix": {step template: [...]}  # for every instance of it
                      "default": "FINISHED",
+                     "after_cancel": "CANCELLED",      # optional: what jobs given to cancel_jobs report from then on
                      "qcodes":  ["OK", ...]}           # per check_jobs call, last repeats (default OK)
                   The log also receives {"call": "poll", "k": k} at every POLL sleep and, per write_script
                   call, the directory, file names and command texts written.
+  E2E_GATE, E2E_GATE_AT, E2E_GATE_REACHED
+                  at the POLL sleep number E2E_GATE_AT the process appends a line to
+                  E2E_GATE_REACHED and blocks (real time) until the file E2E_GATE exists.
   E2E_MAX_POLLS   safety net: after that many POLL sleeps the process exits 99.
 """
 import json
@@ -81,6 +85,19 @@ def _sleep(secs=0, *_a, **_k):
             _append(log, "POLL %d" % k)
         if _state.get("adapter_log"):
             _append(_state["adapter_log"], json.dumps({"call": "poll", "k": k}))
+        gate = os.environ.get("E2E_GATE")
+        if gate and str(k) == os.environ.get("E2E_GATE_AT", "0"):
+            # rendez-vous with the harness: tell it this poll is over, wait until it opens the gate
+            reached = os.environ.get("E2E_GATE_REACHED")
+            if reached:
+                _append(reached, "reached %d" % k)
+            t0 = time.time()
+            while not os.path.exists(gate):
+                if time.time() - t0 > 120:
+                    sys.stderr.write("e2e_launcher: gate never opened\n")
+                    sys.stderr.flush()
+                    os._exit(97)
+                _real_sleep(0.05)
         mx = int(os.environ.get("E2E_MAX_POLLS", "400"))
         if k + 1 >= mx:
             sys.stderr.write("e2e_launcher: poll budget exhausted\n")
@@ -100,7 +117,7 @@ def _register_scripted(path):
     from maestrowf.interfaces.script import SubmissionRecord, CancellationRecord
     log = cfg.get("log")
     _state["adapter_log"] = log
-    st = {"next": 1000, "job_inst": {}, "nsub": {}, "nrep": {}, "nq": 0}
+    st = {"next": 1000, "job_inst": {}, "nsub": {}, "nrep": {}, "nq": 0, "cancelled": set()}
 
     def rec(obj):
         if log:
@@ -167,7 +184,9 @@ def _register_scripted(path):
                 seq = lookup("reports", inst)
                 k = st["nrep"].get(inst, 0)
                 st["nrep"][inst] = k + 1
-                if seq:
+                if str(j) in st["cancelled"] and cfg.get("after_cancel"):
+                    v = cfg["after_cancel"]          # the scheduler honours cancel_jobs
+                elif seq:
                     v = seq[min(k, len(seq) - 1)]
                 else:
                     v = cfg.get("default", "FINISHED")
@@ -178,6 +197,7 @@ def _register_scripted(path):
 
         def cancel_jobs(self, joblist):
             rec({"call": "cancel_jobs", "jobs": [str(j) for j in joblist]})
+            st["cancelled"].update(str(j) for j in joblist)
             return CancellationRecord(CancelCode.OK, 0)
 
     ScriptAdapterFactory.factories["scripted"] = Scripted
